@@ -441,7 +441,7 @@ def _percent_chunk(args):
                 continue
             kind = ("bytes" if isinstance(t, bytes) else "str") + ("-mapping" if (b"%(" in t if isinstance(t, bytes) else "%(" in t) else "")
             for j, a in enumerate(pmod.ARGS):
-                if stride > 1 and (idx + j) % stride:
+                if stride > 1 and (idx + j) % stride and t0 not in pmod.SPECIAL_TEMPLATES:
                     continue
                 n += 1
                 d = {"expression": f"{t!r} % {a!r}"}
